@@ -19,7 +19,8 @@ func init() {
 		Explanation: "Statically decidable part of 'the frame codec round-trips and parsing is total': " +
 			"(R1) totality: in ParseFrame, ReadVarint, AppendFrame, AppendVarint, SplitData, SplitN every index/slice is proved in range by the Go compiler's prove pass or implied by the dominating comparisons (an/bounds.go), there is no other panic site (a make that grows the destination is shown to have 0 <= len <= cap) and no recursion, and every loop has a constant bound, is bounded by a length, or strictly shrinks its operand; " +
 			"(R2) AppendFrame's emitted layout and ParseFrame's consumed layout agree item by item and both equal the wire spec (control byte bit fields done/kind/control, three varints, payload of the announced length); AppendVarint and ReadVarint agree on group size, continuation bit and order; " +
-			"(R3) ParseFrame consumes nothing unless it returns ok (the failure exit returns its input), and the success exit is dominated by the length-vs-remaining test.",
+			"(R3) ParseFrame consumes nothing unless it returns ok (the failure exit returns its input), and the success exit is dominated by the length-vs-remaining test; " +
+			"(R5) in ReadVarint the 'need more data' answer is not reachable from the edge on which the group counter has reached its bound, so an over-long varint is an error however the bytes are chunked.",
 		NotDecided: "the larger part of C08: equality with an independent reference decoder on all byte strings, round-trip for all 64-bit values, the exact remainder, and the need-more-data/error distinction on every malformed input are input-space facts; the layout rules are necessary, not sufficient.",
 		Assumptions: []string{
 			"the Go compiler's prove pass is sound (a bounds check it removes cannot fail)",
@@ -30,6 +31,7 @@ func init() {
 			{ID: "C08.R2", Doc: "AppendFrame/ParseFrame layouts agree with each other and the spec; AppendVarint/ReadVarint agree on 7-bit little-endian groups with continuation bit 0x80", Run: c08r2},
 			{ID: "C08.R4", Doc: "SplitN builds every frame from the packet: id, kind and control bit are the packet's (a split control packet stays a control packet on the wire)", Run: c08r4},
 			{ID: "C08.R3", Doc: "ParseFrame returns its input unchanged unless ok; the ok return is dominated by length <= len(rem)", Run: c08r3},
+			{ID: "C08.R5", Doc: "ReadVarint answers 'need more data' (not ok, nil error) only while its byte budget is unspent: no path from the exit taken when the group counter reaches its bound leads to a not-ok return whose error may be nil (ten continuation bytes are not a prefix of any varint)", Run: c08r5},
 			{ID: "C08.S1", Alias: "C01.R7"},
 		},
 	})
@@ -958,4 +960,165 @@ func c08r4(c *an.Ctx) {
 	}
 	c.Check(len(bad) == 0, "SplitN | every frame carries the packet's id, kind and control bit", c.P.Pos(fn.Pos()), fmt.Sprint(got),
 		"a frame produced by SplitN does not take its header from the packet ("+strings.Join(bad, "; ")+"): the packet that is reassembled from the frames differs from the one that was split")
+}
+
+// c08r5: the "need more data" answer of ReadVarint (ok == false with a nil error) must not be reachable once the
+// group counter has reached its bound. The exhausted edges are read off the comparisons of the loop counter (the
+// shift accumulator or the byte index) with a constant; edges that contradict "counter >= bound" are not followed.
+func c08r5(c *an.Ctx) {
+	fn := c.Fn("drpcwire", "ReadVarint")
+	c.Analysed(fn)
+	sig := fn.Signature.Results()
+	okIdx, errIdx := -1, -1
+	for i := 0; i < sig.Len(); i++ {
+		switch t := sig.At(i).Type().(type) {
+		case *types.Basic:
+			if t.Kind() == types.Bool {
+				okIdx = i
+			}
+		case *types.Named:
+			if t.Obj().Name() == "error" {
+				errIdx = i
+			}
+		}
+	}
+	if okIdx < 0 || errIdx < 0 {
+		c.Undecided("ReadVarint no longer returns (ok bool, err error): restate C08.R5")
+		return
+	}
+	isCounter := func(v ssa.Value) (ssa.Value, bool) {
+		for i := 0; i < 4; i++ {
+			switch x := v.(type) {
+			case *ssa.Convert:
+				v = x.X
+				continue
+			case *ssa.BinOp:
+				if x.Op == token.ADD {
+					if _, isK := an.ConstInt(x.Y); isK {
+						v = x.X
+						continue
+					}
+				}
+			}
+			break
+		}
+		phi, ok := v.(*ssa.Phi)
+		if !ok {
+			return nil, false
+		}
+		for _, e := range phi.Edges {
+			if b, isB := e.(*ssa.BinOp); isB && b.Op == token.ADD && b.X == ssa.Value(phi) {
+				if _, isK := an.ConstInt(b.Y); isK {
+					return phi, true
+				}
+			}
+		}
+		return nil, false
+	}
+	// side(cond) = index of the successor on which "counter >= its bound" holds, or -1
+	type exh struct {
+		br  *ssa.If
+		idx int
+	}
+	var edges []exh
+	counters := map[ssa.Value]int64{}
+	for _, b := range fn.Blocks {
+		br, ok := b.Instrs[len(b.Instrs)-1].(*ssa.If)
+		if !ok {
+			continue
+		}
+		cmp, ok := br.Cond.(*ssa.BinOp)
+		if !ok {
+			continue
+		}
+		k, isK := an.ConstInt(cmp.Y)
+		ctr, isC := isCounter(cmp.X)
+		if !isK || !isC || k <= 0 {
+			continue
+		}
+		switch cmp.Op {
+		case token.LSS, token.LEQ, token.NEQ:
+			edges = append(edges, exh{br, 1})
+		case token.GEQ, token.GTR, token.EQL:
+			edges = append(edges, exh{br, 0})
+		default:
+			continue
+		}
+		if cmp.X == ctr {
+			counters[ctr] = k
+		}
+	}
+	if len(edges) == 0 {
+		c.Bad("ReadVarint | need-more only while the byte budget is unspent", c.P.Pos(fn.Pos()), "no comparison of a loop counter with a constant bound found: the decoder has no recognisable byte budget, so C08.R5 cannot be shown (ten continuation bytes must be an error, not a request for more data)")
+		return
+	}
+	// contradicted edge: a later test of the same counter against a constant not above the bound, on the side saying "below"
+	infeasible := func(from *ssa.BasicBlock, succ int) bool {
+		br, ok := from.Instrs[len(from.Instrs)-1].(*ssa.If)
+		if !ok {
+			return false
+		}
+		cmp, ok := br.Cond.(*ssa.BinOp)
+		if !ok {
+			return false
+		}
+		bound, known := counters[cmp.X]
+		k, isK := an.ConstInt(cmp.Y)
+		if !known || !isK || k > bound {
+			return false
+		}
+		switch cmp.Op {
+		case token.LSS:
+			return succ == 0
+		case token.GEQ:
+			return succ == 1
+		}
+		return false
+	}
+	cases := an.ReturnCases(fn)
+	for ei, e := range edges {
+		start := e.br.Block().Succs[e.idx]
+		seen := map[*ssa.BasicBlock]bool{start: true}
+		work := []*ssa.BasicBlock{start}
+		for len(work) > 0 {
+			b := work[0]
+			work = work[1:]
+			for i, s := range b.Succs {
+				if seen[s] || infeasible(b, i) {
+					continue
+				}
+				// the loop's back edge returns to the test itself: the counter has not reached the bound there
+				if s == e.br.Block() {
+					continue
+				}
+				seen[s] = true
+				work = append(work, s)
+			}
+		}
+		key := fmt.Sprintf("ReadVarint | budget-spent exit %d never answers need-more", ei)
+		bad := ""
+		for _, rc := range cases {
+			at := rc.At
+			if at == nil {
+				at = rc.Ret.Block()
+			}
+			if !seen[at] || !seen[rc.Ret.Block()] {
+				continue
+			}
+			okV, errV := rc.Vals[okIdx], rc.Vals[errIdx]
+			okFalse := okV == nil
+			if cst, isC := okV.(*ssa.Const); isC && cst.Value != nil && cst.Value.String() == "false" {
+				okFalse = true
+			}
+			errNil := errV == nil || an.IsNilConst(errV)
+			if okFalse && errNil {
+				bad = c.P.InstrPos(rc.Ret)
+			}
+		}
+		if bad != "" {
+			c.Bad(key, c.P.InstrPos(e.br), "the return at "+bad+" (not ok, nil error = \"need more data\") is reachable after the group counter reached its bound: an over-long varint that ends exactly at the end of the buffer is answered with a request for more bytes instead of an error, so the answer depends on how the peer's bytes are chunked")
+		} else {
+			c.Ok(key, c.P.InstrPos(e.br), "every return reachable from this edge is ok or carries a non-nil error")
+		}
+	}
 }
